@@ -184,6 +184,37 @@ FilterEntry(e, f) ==
 FilterView(view, f) == IF f = "" THEN view ELSE TLCEval([i \in DOMAIN view |-> FilterEntry(view[i], f)])
 FilterOf(begin) == IF "filter" \in DOMAIN begin THEN begin.filter ELSE ""
 
+\* ---- C11: filtered views ----------------------------------------------------
+\* src: snapshot of the unfiltered source (hard-link groups by inode); stats: what was sent.
+\* Among the REPORTED members of a source inode group the first is sent as a plain file and
+\* every later one as a link naming that first reported member.
+SrcRoot(src, p) == IF Has(src, p) THEN RootOf(src, IdxOf(src, p)) ELSE p
+HardlinkResetOK(stats, src) ==
+  \A i \in DOMAIN stats :
+    stats[i].t = "file" =>
+      LET same == {j \in DOMAIN stats : stats[j].t = "file" /\ SrcRoot(src, stats[j].p) = SrcRoot(src, stats[i].p)}
+          first == CHOOSE j \in same : \A k \in same : j <= k
+      IN stats[i].hl = (IF i = first THEN <<>> ELSE stats[first].p)
+OpensOf(evs) == SelectSeq(evs, LAMBDA x : x.ev = "Open")
+FilteredClauses(c, begin, evs, stats) ==
+  LET opens == OpensOf(evs)
+      reportedFile(p) == \E i \in DOMAIN stats : stats[i].p = p /\ stats[i].t = "file"
+      badOpen == {k \in DOMAIN opens : \/ opens[k].ok # reportedFile(opens[k].p)
+                                        \/ (opens[k].ok /\ opens[k].c # opens[k].want)}
+      sd == {begin.selDiff[k] : k \in DOMAIN begin.selDiff}
+      \* explained: the mismatch sits at a path (or below a directory) where the library's
+      \* incremental matcher and its plain matcher disagree
+      explained(p) == p \in sd \/ \E a \in Anc(p) : a \in sd
+      failedTransfer == c.faults = 0 /\ ~(c.retS = "ok" /\ c.retR = "ok")
+      anyDiffReported == \E i \in DOMAIN stats : explained(stats[i].p)
+  IN Cl(~HardlinkResetOK(stats, begin.src), "C11.hardlinkResetRule")
+     \cup (IF ~begin.patternOnly \/ badOpen = {} THEN {}
+           ELSE IF \A k \in badOpen : explained(opens[k].p) THEN {"C11.openDisagreesWithWalk/explainedByIncrementalMatcher"}
+           ELSE {"C11.openDisagreesWithWalk"})
+     \cup (IF ~failedTransfer THEN {}
+           ELSE IF anyDiffReported THEN {"C11.filteredTransferFailed/explainedByIncrementalMatcher"}
+           ELSE {"C11.filteredTransferFailed"})
+
 \* ---- C03: hostile sender ---------------------------------------------------
 \* index of the first STAT that a receiver must reject: not a clean relative path strictly
 \* inside the root, not strictly ascending, parent not a directory sent earlier, or a hard
@@ -246,8 +277,10 @@ EndClauses(c, e) ==
   \cup Cl(c.realS /\ c.srcExact /\ c.ended
          /\ ~(Len(stats) = Len(begin.src) /\ \A i \in DOMAIN begin.src : stats[i].p = begin.src[i].p /\ stats[i].t = begin.src[i].t),
          "C06.statPerViewEntry")
-  \cup (IF c.realS /\ c.realR /\ c.faults = 0 /\ ~bothOK THEN {"C11.faultFreeTransferFailed", "C08.outcomeDependsOnSchedule"} ELSE {})
+  \cup (IF c.realS /\ c.realR /\ c.faults = 0 /\ ~bothOK
+        THEN (IF "filtered" \in DOMAIN begin THEN {} ELSE {"C11.faultFreeTransferFailed"}) \cup {"C08.outcomeDependsOnSchedule"} ELSE {})
   \cup (IF "hostile" \in DOMAIN begin /\ c.realR THEN HostileClauses(c, begin, e, stats) ELSE {})
+  \cup (IF "filtered" \in DOMAIN begin THEN FilteredClauses(c, begin, evs, stats) ELSE {})
   \cup Cl(c.retS = "none" \/ c.retR = "none", "C04.callDidNotReturn")
 
 EndDetail(c, e) ==
@@ -278,6 +311,7 @@ Consume(c, e) ==
          [] e.ev = "Progress" -> Prog(c, e)
          [] e.ev = "Return" -> Ret(c, e)
          [] e.ev = "Notify" -> <<c, {}>>
+         [] e.ev = "Open" -> <<c, {}>>
          [] e.ev = "Fault" -> <<[c EXCEPT !.faults = @ + 1], {}>>
          [] e.ev = "Break" -> <<[c EXCEPT !.faults = @ + 1], {}>>
          [] e.ev = "TearDown" -> <<IF e.ep = "S" THEN [c EXCEPT !.tornS = TRUE] ELSE [c EXCEPT !.tornR = TRUE], {}>>
